@@ -19,6 +19,16 @@
 (* Starts whose distinguishing feature can only matter to the first        *)
 (* signature carry a small depth budget (start.depth); the one start that  *)
 (* is explored five actions deep allows two signatures (start.signs).      *)
+(*                                                                         *)
+(* FormSpec is a second family for the dimension "form of the entries      *)
+(* next to a genuine signature" (ForeignEntry): E1 signs with SignJSON,    *)
+(* then entries of every form of ForeignForms are left in every place      *)
+(* relative to that signature - another entity's, the signer's under       *)
+(* another key ID, either under a key ID of another algorithm (KA), and    *)
+(* the signer's own place - interleaved with a second SignJSON signer, an  *)
+(* external signer, one tamper, an edit of unsigned and re-serialisations. *)
+(* One level up (ForeignEntity) signatures[E2], or signatures[E1] itself,  *)
+(* is left as something that is no object, in every form of EntityForms.   *)
 (***************************************************************************)
 EXTENDS JSONSign, Json
 
@@ -56,6 +66,21 @@ StartsThorough ==
     \cup {St(BareObj, "canon", "absent", 4), St(BareObj, "all", "null", 4)}
     \cup {St(FullObj, p, "absent", 4) : p \in {"order", "esc"}}
 
+\* forms of entries that are no signatures; the unrestricted specification is model-checked with one form that a
+\* signer cannot carry over (at the level of an entry) and one that it can (at the level of an entity): nothing in
+\* JSONSign.tla distinguishes forms any further, and FormSpec checks every invariant with all of them
+GenForms     == {"padded", "text", "scalar", "object", "list", "blank"}
+BaseForms    == {"padded"}
+NoForms      == {}
+\* forms of a signatures[entity] that is no object (blank: null)
+GenEntForms  == {"blank"}   \* text / scalar / list under another entity's name: not demanded by the property (DESIGN.md 11.2)
+BaseEntForms == {"blank"}
+\* FormSpec: K1, K2 are ed25519 key IDs, KA is a key ID of another algorithm (nobody signs with it)
+FormKeyIDs   == {"K1", "K2", "KA"}
+StF(o, p, d) == [obj |-> o, pres |-> p, sigs |-> "absent", depth |-> d, signs |-> d]
+StartsFormQuick    == {StF(MainObj, "ws", 3)}
+StartsFormThorough == {StF(MainObj, "ws", 4), StF(FullObj, "canon", 3)}
+
 \* the unrestricted specification (Spec, every action with every parameter) is model-checked from these
 StartsBase == {St(MainObj, "ws", "absent", 3)}
 
@@ -77,6 +102,26 @@ GenNext ==
           \/ \E p \in Presentations : Reserialise(p)
 
 GenSpec == Init /\ [][GenNext]_vars
+
+\* places relative to the genuine signature <<E1, K1>>: another entity's (ed25519 / other algorithm's key ID),
+\* the signer's under another key ID (ed25519 / other algorithm), the signer's own
+FormSlots == {<<"E2", "K1">>, <<"E2", "KA">>, <<"E1", "K2">>, <<"E1", "KA">>, <<"E1", "K1">>}
+
+FormNext ==
+    \/ /\ hist = <<>>
+       /\ Sign("E1", "K1", "P1")
+    \/ /\ hist # <<>>
+       /\ \/ \E x \in FormSlots, f \in ForeignForms : ForeignEntry(x[1], x[2], f)
+          \/ \E e \in Entities, f \in EntityForms : ForeignEntity(e, f)
+          \* a second entity signs with SignJSON (which may decline once an entry it cannot carry over is there:
+          \* that is the recorder's business, see SignRefused)
+          \/ ~Unreadable(sigs) /\ Sign("E2", "K1", "P2")
+          \/ ForeignSign("E2", "K2", "P2")
+          \/ \E m \in PlainMembers : obj[m] = "v1" /\ Mutate(m, "v2")
+          \/ EditUnsigned("u2")
+          \/ \E p \in {"canon", "all"} : Reserialise(p)
+
+FormSpec == Init /\ [][FormNext]_vars
 
 Emit == (hist # <<>>) =>
           PrintT(ToJson([start |-> [obj |-> start.obj, pres |-> start.pres, sigs |-> start.sigs],
